@@ -179,15 +179,24 @@ CanTake(f) == /\ pc = "loop" /\ Len(stream) < MaxFrags
                      \/ p.contig < f.contig
                      \/ (p.contig = f.contig /\ Rel(p, readlen) <= Rel(View(f), readlen)))
 
+(* which branch of the loop body the fragment takes (cheap: no new buffer is built) *)
+Branch(f) ==
+    IF ~f.valid THEN "invalid"
+    ELSE LET S == Append(stream, f)
+             b == BucketIdx(buf, BucketKey(pooling, f))
+             mols == IF b = 0 THEN <<>> ELSE buf[b].mols
+             k == FirstFit(S, pooling, mols, f)
+         IN IF k = 0 THEN "new" ELSE IF Cap > 0 /\ Len(mols[k].ids) >= Cap THEN "overflow" ELSE "join"
+
 Take(f, what) ==
     /\ CanTake(f)
+    /\ Branch(f) = what
     /\ LET S == Append(stream, f)
            r == Step(S, pooling, [B |-> buf, O |-> out], Len(S))
-       IN /\ r.what = what
-          /\ stream' = S /\ buf' = r.B /\ out' = r.O /\ last' = what
-          /\ IF what \in {"join", "new"}
-             THEN iter' = iter + 1 /\ pc' = "check"          \* waiting_fragments += 1; check_ejection_iter += 1
-             ELSE iter' = iter /\ pc' = "loop"               \* `continue`
+       IN stream' = S /\ buf' = r.B /\ out' = r.O /\ last' = what
+    /\ IF what \in {"join", "new"}
+       THEN iter' = iter + 1 /\ pc' = "check"          \* waiting_fragments += 1; check_ejection_iter += 1
+       ELSE iter' = iter /\ pc' = "loop"               \* `continue`
     /\ UNCHANGED <<sched, pooling, readlen>>
 
 TakeInvalid(f)   == Take(f, "invalid")
@@ -237,8 +246,10 @@ Real == { k \in DOMAIN out : ~out[k].ov }          \* molecules (not overflow-re
 InBuffer == UNION { UNION { SeqSet(buf[b].mols[k].ids) : k \in DOMAIN buf[b].mols } : b \in DOMAIN buf }
 InOut == UNION { SeqSet(out[k].ids) : k \in DOMAIN out }
 
-Inv_C06_Homogeneous == \A k \in DOMAIN out : Homogeneous(Kind, Radius, F, SeqSet(out[k].ids))
-Inv_C06_Linked      == \A k \in DOMAIN out : Linked(HD, F, SeqSet(out[k].ids)) /\ OnlyValid(F, SeqSet(out[k].ids))
+(* Every molecule ends up in `out` and FinalFlush is always enabled, so the per-molecule and whole-run     *)
+(* properties are evaluated in the final states (pc = "done"); conservation is checked in every state.  *)
+Inv_C06_Homogeneous == Done => \A k \in DOMAIN out : Homogeneous(Kind, Radius, F, SeqSet(out[k].ids))
+Inv_C06_Linked      == Done => \A k \in DOMAIN out : Linked(HD, F, SeqSet(out[k].ids)) /\ OnlyValid(F, SeqSet(out[k].ids))
 Inv_C06_Exact ==
     (Done /\ HD = 0 /\ Radius = 0 /\ Kind # "plain") =>
         LET V == { i \in DOMAIN F : F[i].valid } \ UNION { SeqSet(out[k].ids) : k \in DOMAIN out \ Real }
@@ -246,25 +257,24 @@ Inv_C06_Exact ==
            /\ Cap = 0 => Real = DOMAIN out
            \* a fragment is only turned away by a full molecule of its own class
            /\ \A k \in DOMAIN out \ Real : \E r \in Real : Len(out[r].ids) = Cap /\ SameClass(F[out[r].ids[1]], F[out[k].ids[1]])
-Inv_C06_OnePrimary == \A k \in DOMAIN out : \A d \in DupVectors(out[k]) : OnePrimary(Tags(out[k], d))
-Inv_C06_Counts     == \A k \in DOMAIN out : \A d \in DupVectors(out[k]) : Counts(Tags(out[k], d), out[k].overflow)
-                                             /\ (Cap = 0 => out[k].overflow = 0)
-                                             /\ (Cap > 0 => Len(out[k].ids) <= Cap)
+Inv_C06_OnePrimary == Done => \A k \in DOMAIN out : \A d \in DupVectors(out[k]) : OnePrimary(Tags(out[k], d))
+Inv_C06_Counts     == Done => \A k \in DOMAIN out : /\ \A d \in DupVectors(out[k]) : Counts(Tags(out[k], d), out[k].overflow)
+                                                     /\ (Cap = 0 => out[k].overflow = 0)
+                                                     /\ (Cap > 0 => Len(out[k].ids) <= Cap)
 (* tagging the tagged output again (same molecule, flags = output of the first round) changes nothing *)
 Inv_C06_Idempotent ==
-    \A k \in DOMAIN out : \A d \in DupVectors(out[k]) :
+    Done => \A k \in DOMAIN out : \A d \in DupVectors(out[k]) :
         LET t1 == Tags(out[k], d)
             t2 == Tags(out[k], [j \in DOMAIN t1 |-> t1[j].dup])
         IN t2 = t1 /\ OnePrimary(t2)
 
-Inv_C07_ExactlyOnce ==
+Inv_Conservation ==          \* D-level: buffer and output together hold every valid fragment consumed so far, once
     /\ InOut \cap InBuffer = {}
     /\ InOut \cup InBuffer = { i \in DOMAIN F : F[i].valid }
-    /\ \A bb \in DOMAIN buf : \A k, j \in DOMAIN buf[bb].mols : k # j => SeqSet(buf[bb].mols[k].ids) \cap SeqSet(buf[bb].mols[j].ids) = {}
-    /\ ExactlyOnce([i \in DOMAIN F |-> [F[i] EXCEPT !.valid = @ /\ i \in InOut]], out)
     /\ Done => InBuffer = {}
+Inv_C07_ExactlyOnce   == Done => ExactlyOnce(F, out)
 Inv_C07_SamePartition == Done => GroupsOf(out) = GroupsOf(NoEject(stream, pooling))
-Inv_C07_NoPremature   == NoPremature(F, out, Cap)
+Inv_C07_NoPremature   == Done => NoPremature(F, out, Cap)
 (* both pooling methods give the same molecules when UMIs are compared exactly (radius 0, non-plain) *)
 Inv_C07_PoolingAgnostic ==
     (Done /\ HD = 0 /\ Radius = 0 /\ Kind # "plain" /\ Cap = 0) => GroupsOf(out) = GroupsOf(NoEject(stream, 1 - pooling))
